@@ -36,6 +36,7 @@ class RecordingDB:
         self.writes = 0
         self.reads = 0
         self.deletes = 0
+        self.injected_failures = 0
         self.pending_trace_violation = None
 
     # -- bookkeeping
@@ -52,7 +53,7 @@ class RecordingDB:
                 raise
 
     def reset_counts(self):
-        self.writes = self.reads = self.deletes = 0
+        self.writes = self.reads = self.deletes = self.injected_failures = 0
 
     def snapshot(self):
         return dict(self._d)
@@ -90,6 +91,7 @@ class RecordingDB:
         self.writes += 1
         self._event("set", key, value)
         if self.fail_write_at is not None and self.writes == self.fail_write_at:
+            self.injected_failures += 1
             raise InjectedWriteFailure("injected failure of write #%d" % self.writes)
         self._d[key] = value
         self._hidden.pop(key, None)
@@ -112,6 +114,15 @@ class RecordingDB:
         self.reads += 1
         self._event("get", key)
         return self._d.get(key, default)
+
+    def setdefault(self, key, default=None):
+        # a read, and a write only when the key is absent (the mapping protocol's semantics)
+        self.reads += 1
+        self._event("get", key)
+        if key in self._d:
+            return self._d[key]
+        self[key] = default
+        return default
 
     def keys(self):
         return list(self._d.keys())
